@@ -138,6 +138,18 @@ func Programs() []Program {
 		add("pairs:trigger", fmt.Sprintf("import trigger minute from triggers;\nfn main() { trigger %s at minute(%s); }\n", e, e))
 		add("pairs:annotation", fmt.Sprintf("import trigger minute from triggers;\n#[trigger at minute(%s)]\nevent fn cb(e: int) {}\nfn main() {}\n", e))
 		add("pairs:impl", fmt.Sprintf("import templ FooFeature from templates;\n$D = { n: int };\nimpl FooFeature with { light } for $D {\n    fn dim(self: $D, percent: int) -> bool { %s }\n}\nfn main() {}\n", e))
+		// a place whose type is (or contains) `any`, assigned to NESTED inside the positions where the analyzer
+		// relaxes its implicit-any rule: a let initialiser, a cast operand, a member base, a closure body
+		for _, place := range []struct{ decl, lhs string }{
+			{"let x: any = 1;", "x"}, {"let l: [any] = [];", "l[0]"}, {"let o: { a: any } = new { a: 1 };", "o.a"}, {"let q: ?any = none;", "q"},
+		} {
+			for _, op := range []string{"=", "+="} {
+				add("pairs:any-place-in-let", fmt.Sprintf("fn main() { %s let y = { %s %s %s; 1 }; }\n", place.decl, place.lhs, op, e))
+				add("pairs:any-place-in-closure", fmt.Sprintf("fn main() { %s let f = fn() { %s %s %s; }; }\n", place.decl, place.lhs, op, e))
+				add("pairs:any-place-in-cast", fmt.Sprintf("fn main() { %s let y = ({ %s %s %s; 1 }) as int; }\n", place.decl, place.lhs, op, e))
+				add("pairs:any-place-in-member-base", fmt.Sprintf("fn main() { %s let y = [{ %s %s %s; 1 }].len(); }\n", place.decl, place.lhs, op, e))
+			}
+		}
 	}
 	return out
 }
